@@ -1,0 +1,21 @@
+//go:build verif
+
+package filesystem
+
+import (
+	"os"
+)
+
+// VerifAtomicStepHook, if non-nil, is invoked between the individual steps of
+// WriteFileAtomic with the name of the step that is about to be performed, the
+// target path, and the temporary file (which may already be closed, but whose
+// name remains available). It may block (or never return). It only exists in
+// verification builds.
+var VerifAtomicStepHook func(step string, target string, temporary *os.File)
+
+// verifAtomicStep invokes VerifAtomicStepHook, if any.
+func verifAtomicStep(step string, target string, temporary *os.File) {
+	if hook := VerifAtomicStepHook; hook != nil {
+		hook(step, target, temporary)
+	}
+}
